@@ -57,18 +57,20 @@ class RefLoadError(Exception):
     pass
 class DDSException(BaseException):
     pass
+def _np(path):
+    return "/" + "/".join(x for x in str(path).split("/") if x)
 def keep(path, fun, *args, **kwargs):
     v = fun(*args, **kwargs)
-    kept.append((str(path), v))
+    kept.append((_np(path), v))
     return v
 def eval(fun, *args, dds_export_graph=None, dds_extra_debug=None, dds_stages=None, **kwargs):
     return fun(*args, **kwargs)
 def load(path):
     for p, v in reversed(kept):
-        if p == str(path):
+        if p == _np(path):
             return v
-    if str(path) in committed:
-        return committed[str(path)]
+    if _np(path) in committed:
+        return committed[_np(path)]
     raise RefLoadError(str(path))
 def data_function(path):
     def deco(f):
